@@ -103,3 +103,9 @@ check('C09', 'refmodel', 'fault_enumeration', 'fault enumeration over the checkp
       'a wrong layer count raises ValueError, the continued gradients equal the uninterrupted run when the live second-order data was fresh or is recomputed next, and always equal the reference that '
       'refreshes at load; include_factors=False / compute_inverses=False variants.',
       'A resume is a fresh preconditioner on the same model object; runs of 3-8 steps.', 'DESIGN.md §3 C09')
+
+check('C12', 'contracts', 'exploration', 'runtime relational monitor over one real GPTNeoXAssignment per rank (cross-rank view comparison, greedy replay, recorded new_group order)',
+      'Exhaustive over (pipe,data,model) topologies with product <=24 (thorough <=64), every local rank and five cost families: stage-wide agreement on inverse workers, least-loaded greedy replay, '
+      'factor_worker / src_grad_worker / is_grad_worker relations from topology coordinates, broadcast flags, identical new_group sequences on all ranks, equal digests across hash seeds; '
+      'the new_group order is additionally observed on the real front-end by the simdist runs of C03.',
+      'DeepSpeed topology stand-in (stubs/deepspeed); group handles are recorder tuples.', 'DESIGN.md §3 C12')
